@@ -4,18 +4,24 @@ package c09
 // MsgEthereumTx) x gas-limit sweep, against the Lean frame/journal model.
 //
 //   op line   : tx <gasLimit> <intrinsic> <program with the gas costs measured by a tracer on an ample-gas run>
-//   impl line : <status> markers=<surviving SSTORE markers read from contract storage> kept=<precompile calls whose frame
-//               and all enclosing frames returned normally, from a traced run at the same gas limit> ref=<same|diff>
-//               where ref compares every Cosmos module store after the real run with a REFERENCE run (ample gas) of the
-//               program pruned to exactly the kept frames — "surviving effects = those of calls all of whose enclosing
-//               frames returned normally", checked byte for byte on bank, staking, distribution, crosschain, erc20, ...
-//   model line: what `runTx` of Model/C09.lean predicts from the program, the costs and the gas limit alone.
+//   impl line : <status> gas=<gas used by the root frame (traced run at the same limit)> markers=<surviving SSTORE markers
+//               read from contract storage> kept=<precompile calls whose frame and all enclosing frames returned
+//               normally> logs=<number of precompile logs in the receipt> ref=<same|diff>
+//               where ref compares every Cosmos module store (and the ERC-20 token storage) after the real run with a
+//               REFERENCE run (ample gas) of the program pruned to exactly the kept frames — "surviving effects = those
+//               of calls all of whose enclosing frames returned normally", checked byte for byte on bank, staking,
+//               distribution, crosschain, erc20, ... ; the details of a difference go into the monitor text
+//   precompile calls carry a mode: ok | fail | use:<r> (consumes resource r: a pool transaction being cancelled, a pending
+//               claim being executed; fails when an earlier KEPT call consumed it) | need:<r> (fails when r is consumed):
+//               whether such a call succeeds depends on which earlier frames the EVM kept.
+//   model line: what `runTx` of Model/C09.lean predicts from the program, the costs and the gas limit alone (the shape of
+//               every method's Run — writes outside the native action, recover(), gas meter — is looked up by the driver
+//               in the regenerated table Gen/C09.lean).
 //
 // Monitors (property stated on real state): failed tx => no Cosmos-side change at all; success => every executed
 // precompile call's effect is there (reference equality); caught failure => none of that frame's.
 
 import (
-	"bytes"
 	"encoding/json"
 	"fmt"
 	"math/big"
@@ -31,9 +37,11 @@ import (
 	"github.com/ethereum/go-ethereum/common"
 	evmtypes "github.com/evmos/ethermint/x/evm/types"
 
+	"github.com/functionx/fx-core/v8/contract"
 	"github.com/functionx/fx-core/v8/testutil/helpers"
 	fxtypes "github.com/functionx/fx-core/v8/types"
 	crosschaintypes "github.com/functionx/fx-core/v8/x/crosschain/types"
+	erc20types "github.com/functionx/fx-core/v8/x/erc20/types"
 	ethtypes "github.com/functionx/fx-core/v8/x/eth/types"
 	fxstakingtypes "github.com/functionx/fx-core/v8/x/staking/types"
 
@@ -41,7 +49,14 @@ import (
 	"fxverif/harness/hx"
 )
 
-const nPool = 6
+const (
+	nPool   = 6
+	nClaim  = 4    // pending claims prepared for executeClaim
+	claim0  = 7001 // event nonce of the first prepared claim
+	resTx   = 10   // resource id of pool tx k of pool i: resTx*i + k + 1
+	resClm  = 100  // resource id of claim k: resClm + k
+	ampleGL = 6_000_000
+)
 
 type env struct {
 	s       *hx.Suite
@@ -49,10 +64,13 @@ type env struct {
 	owner   *helpers.Signer // EOA with a delegation that approved every pool contract
 	sink    common.Address  // receiver of share transfers
 	pool    []common.Address
+	poolIdx map[common.Address]int
 	vals    []string
 	staking common.Address
 	cross   common.Address
-	txids   map[common.Address][]uint64 // prepared outgoing pool txs per pool contract: [cancel, increase]
+	wfx     common.Address              // ERC-20 face of FX (token pair of the default denom); zero if set-up failed
+	tst     common.Address              // a native ERC-20 (owner external) registered with an eth bridge alias; zero if set-up failed
+	txids   map[common.Address][]uint64 // prepared outgoing pool txs per pool contract
 	reqGas  map[string]uint64
 	writer  map[string]bool
 	cnt     func(string)
@@ -62,19 +80,18 @@ func poolAddr(i int) common.Address {
 	return common.BytesToAddress([]byte{0xC0, 0x9C, 0, 0, 0, 0, 0, 0, 0, 0, 0, 0, 0, 0, 0, 0, 0, 0, 0x10, byte(i + 1)})
 }
 
+func big18(n int64) sdkmath.Int { return sdkmath.NewInt(n).Mul(sdkmath.NewInt(1e18)) }
+
 func setup(t *testing.T, out *hx.Out) *env {
 	s := hx.NewSuite(t, 2)
 	e := &env{s: s, staking: fxstakingtypes.GetAddress(), cross: crosschaintypes.GetAddress(), txids: map[common.Address][]uint64{},
-		reqGas: map[string]uint64{}, writer: map[string]bool{}}
+		reqGas: map[string]uint64{}, writer: map[string]bool{}, poolIdx: map[common.Address]int{}}
 	e.signer = s.AddTestSigner(100_000)
 	e.owner = s.AddTestSigner(100_000)
 	e.sink = helpers.GenHexAddress()
 	for _, v := range s.ValAddr {
 		e.vals = append(e.vals, v.String())
 	}
-	big18 := func(n int64) sdkmath.Int { return sdkmath.NewInt(n).Mul(sdkmath.NewInt(1e18)) }
-	msgSrv := s.App.StakingKeeper
-	_ = msgSrv
 	delegate := func(who sdk.AccAddress, val sdk.ValAddress, amt sdkmath.Int) {
 		v, err := s.App.StakingKeeper.GetValidator(s.Ctx, val)
 		if err != nil {
@@ -85,12 +102,14 @@ func setup(t *testing.T, out *hx.Out) *env {
 		}
 	}
 	// crosschain: FX <-> eth bridge token
-	bridgeDenom := crosschaintypes.NewBridgeDenom(ethtypes.ModuleName, helpers.GenExternalAddr(ethtypes.ModuleName))
+	fxExternal := helpers.GenExternalAddr(ethtypes.ModuleName)
+	bridgeDenom := crosschaintypes.NewBridgeDenom(ethtypes.ModuleName, fxExternal)
 	s.App.EthKeeper.AddBridgeToken(s.Ctx, bridgeDenom, fxtypes.DefaultDenom)
 	s.App.EthKeeper.AddBridgeToken(s.Ctx, fxtypes.DefaultDenom, bridgeDenom)
 	for i := 0; i < nPool; i++ {
 		a := poolAddr(i)
 		e.pool = append(e.pool, a)
+		e.poolIdx[a] = i
 		s.MintToken(a.Bytes(), sdk.NewCoin(fxtypes.DefaultDenom, big18(1_000_000)))
 		delegate(a.Bytes(), s.ValAddr[0], big18(1000))
 		delegate(a.Bytes(), s.ValAddr[1], big18(1000))
@@ -109,6 +128,62 @@ func setup(t *testing.T, out *hx.Out) *env {
 			}
 			e.txids[a] = append(e.txids[a], id)
 		}
+	}
+	// ERC-20 faces: WFX (token pair of the default denom) for every pool contract, spendable by the crosschain precompile
+	fip := contract.GetFIP20()
+	maxU := new(big.Int).Sub(new(big.Int).Lsh(big.NewInt(1), 255), big.NewInt(1))
+	if pair, ok := s.App.Erc20Keeper.GetTokenPair(s.Ctx, fxtypes.DefaultDenom); ok {
+		e.wfx = pair.GetERC20Contract()
+		for _, a := range e.pool {
+			if _, err := s.App.Erc20Keeper.ConvertCoin(s.Ctx, &erc20types.MsgConvertCoin{Coin: sdk.NewCoin(fxtypes.DefaultDenom, big18(1000)),
+				Receiver: a.Hex(), Sender: sdk.AccAddress(a.Bytes()).String()}); err != nil {
+				out.Count("setup:wfx-convert-error:" + firstLine(err.Error()))
+				e.wfx = common.Address{}
+				break
+			}
+			if _, err := s.App.EvmKeeper.ApplyContract(s.Ctx, a, e.wfx, nil, fip.ABI, "approve", e.cross, maxU); err != nil {
+				out.Count("setup:wfx-approve-error:" + firstLine(err.Error()))
+			}
+		}
+	} else {
+		out.Count("setup:no-FX-token-pair")
+	}
+	// a native ERC-20 (contract owner external) with an eth bridge alias
+	func() {
+		mod := s.App.Erc20Keeper.ModuleAddress()
+		tok, err := s.App.Erc20Keeper.DeployUpgradableToken(s.Ctx, mod, "Test token", "TST", 18)
+		if err != nil {
+			out.Count("setup:tst-deploy-error:" + firstLine(err.Error()))
+			return
+		}
+		for _, a := range e.pool {
+			if _, err := s.App.EvmKeeper.ApplyContract(s.Ctx, mod, tok, nil, fip.ABI, "mint", a, big18(1000).BigInt()); err != nil {
+				out.Count("setup:tst-mint-error:" + firstLine(err.Error()))
+				return
+			}
+		}
+		ext := helpers.GenExternalAddr(ethtypes.ModuleName)
+		alias := crosschaintypes.NewBridgeDenom(ethtypes.ModuleName, ext)
+		s.App.EthKeeper.AddBridgeToken(s.Ctx, alias, alias)
+		if _, err := s.App.Erc20Keeper.RegisterNativeERC20(s.Ctx, tok, alias); err != nil {
+			out.Count("setup:tst-register-error:" + firstLine(err.Error()))
+			return
+		}
+		for _, a := range e.pool {
+			if _, err := s.App.EvmKeeper.ApplyContract(s.Ctx, a, tok, nil, fip.ABI, "approve", e.cross, maxU); err != nil {
+				out.Count("setup:tst-approve-error:" + firstLine(err.Error()))
+			}
+		}
+		e.tst = tok
+	}()
+	// pending claims for executeClaim: FX arriving from eth for fresh receivers (the eth module holds the FX)
+	s.MintTokenToModule(ethtypes.ModuleName, sdk.NewCoin(fxtypes.DefaultDenom, big18(1000)))
+	for k := 0; k < nClaim; k++ {
+		s.App.EthKeeper.SavePendingExecuteClaim(s.Ctx, &crosschaintypes.MsgSendToFxClaim{
+			EventNonce: uint64(claim0 + k), BlockHeight: 100, TokenContract: fxExternal, Amount: sdkmath.NewInt(int64(5000 + k)),
+			Sender: helpers.GenExternalAddr(ethtypes.ModuleName), Receiver: sdk.AccAddress(helpers.GenHexAddress().Bytes()).String(),
+			BridgerAddress: sdk.AccAddress(helpers.GenHexAddress().Bytes()).String(), ChainName: ethtypes.ModuleName,
+		})
 	}
 	s.App.EthKeeper.SetLastObservedBlockHeight(s.Ctx, 1000, uint64(s.Ctx.BlockHeight()))
 	s.Commit()
@@ -130,6 +205,9 @@ func setup(t *testing.T, out *hx.Out) *env {
 			}
 		}
 	}
+	if len(e.reqGas) == 0 {
+		t.Fatal("C09: no method facts (VERIF_FACTS)")
+	}
 	return e
 }
 
@@ -144,216 +222,6 @@ func firstLine(s string) string {
 }
 
 // ---------------------------------------------------------------------------------------------------------
-// program generation
-
-type meta struct {
-	method string
-	mode   string // ok | fail
-}
-
-type program struct {
-	root  []*evmx.Node
-	addrs []common.Address // frame contracts in use (root first)
-	meta  map[int]*meta    // pre node id -> method info
-	nodes map[int]*evmx.Node
-	ctxOf map[int]common.Address // node id -> storage/caller context address of the frame executing it
-	next  int
-}
-
-func (e *env) genProgram(rng *rand.Rand) *program {
-	p := &program{meta: map[int]*meta{}, nodes: map[int]*evmx.Node{}, ctxOf: map[int]common.Address{}}
-	p.addrs = []common.Address{e.pool[0]}
-	cancelUsed = map[common.Address]bool{}
-	var gen func(depth int, ctx common.Address, static bool) []*evmx.Node
-	gen = func(depth int, ctx common.Address, static bool) []*evmx.Node {
-		n := 2 + rng.Intn(4)
-		var out []*evmx.Node
-		for i := 0; i < n; i++ {
-			p.next++
-			id := p.next
-			nd := &evmx.Node{ID: id}
-			r := rng.Intn(100)
-			switch {
-			case r < 25:
-				nd.Op, nd.Slot, nd.Val = "sstore", uint64(id), 1
-				if static && rng.Intn(4) != 0 {
-					nd = nil // mostly avoid SSTORE in static frames (it fails the frame)
-				}
-			case r < 65:
-				e.genPre(rng, nd, ctx, static)
-				p.meta[id] = &meta{method: nd.Op, mode: ""} // filled below
-				p.meta[id].method, p.meta[id].mode = lastMethod, lastMode
-				nd.Op = "pre"
-			case r < 85 && depth < 3 && len(p.addrs) < nPool:
-				nd.Op = "call"
-				nd.Kind = evmx.Kind([]int{0, 0, 0, 0, 0, 0, 0, 1, 2, 3}[rng.Intn(10)])
-				nd.To = e.pool[len(p.addrs)]
-				p.addrs = append(p.addrs, nd.To)
-				nd.Swallow = rng.Intn(2) == 0
-				if rng.Intn(3) == 0 {
-					nd.Gas = uint64(20000 + rng.Intn(300000))
-				}
-				if nd.Kind == evmx.KCall && !static && rng.Intn(4) == 0 {
-					nd.Value = big.NewInt(int64(1 + rng.Intn(1000)))
-				}
-				cctx := nd.To
-				if nd.Kind == evmx.KDelegate || nd.Kind == evmx.KCallCode {
-					cctx = ctx
-				}
-				nd.Body = gen(depth+1, cctx, static || nd.Kind == evmx.KStatic)
-			case r < 88 && (depth > 0 || rng.Intn(4) == 0):
-				nd.Op = "revert"
-			case r < 90 && (depth > 0 || rng.Intn(4) == 0):
-				nd.Op = "invalid"
-			case r < 92 && (depth > 0 || rng.Intn(4) == 0):
-				nd.Op = "stop"
-			default:
-				nd.Op, nd.Slot, nd.Val = "sstore", uint64(id), 1
-				if static {
-					nd = nil
-				}
-			}
-			if nd == nil {
-				continue
-			}
-			p.nodes[id] = nd
-			p.ctxOf[id] = ctx
-			out = append(out, nd)
-		}
-		return out
-	}
-	p.root = gen(0, e.pool[0], false)
-	return p
-}
-
-var lastMethod, lastMode string
-var cancelUsed = map[common.Address]bool{}
-
-// genPre fills a precompile call: method, calldata, kind, value, intended outcome.
-func (e *env) genPre(rng *rand.Rand, nd *evmx.Node, ctx common.Address, static bool) {
-	sabi := fxstakingtypes.GetABI()
-	cabi := crosschaintypes.GetABI()
-	methods := []string{"delegateV2", "delegateV2", "undelegateV2", "redelegateV2", "withdraw", "approveShares", "approveShares",
-		"transferShares", "transferFromShares", "crossChain", "crossChain", "cancelSendToExternal", "increaseBridgeFee", "bridgeCall", "executeClaim",
-		"delegation", "hasOracle"}
-	m := hx.Pick(rng, methods)
-	mode := "ok"
-	if rng.Intn(8) == 0 {
-		mode = "fail"
-	}
-	nd.Kind = evmx.Kind([]int{0, 0, 0, 0, 0, 0, 0, 0, 0, 1, 2, 3}[rng.Intn(12)])
-	nd.Swallow = rng.Intn(2) == 0
-	if rng.Intn(4) == 0 {
-		nd.Gas = uint64(5000 + rng.Intn(400000))
-	}
-	nd.To = e.staking
-	val := e.vals[0]
-	if mode == "fail" {
-		val = "fxvaloper1notavalidator"
-	}
-	amt := func(k int64) *big.Int { return new(big.Int).Mul(big.NewInt(k+int64(nd.ID)), big.NewInt(1e15)) }
-	if mode == "fail" && rng.Intn(2) == 0 {
-		switch m {
-		case "delegateV2", "undelegateV2", "redelegateV2", "transferShares", "transferFromShares":
-			// valid arguments that the keeper rejects (more than the caller has)
-			val = e.vals[0]
-			amt = func(k int64) *big.Int { return new(big.Int).Mul(big.NewInt(k+int64(nd.ID)), new(big.Int).Exp(big.NewInt(10), big.NewInt(27), nil)) }
-		}
-	}
-	var data []byte
-	var err error
-	value := new(big.Int)
-	switch m {
-	case "delegateV2":
-		data, err = sabi.Pack(m, val, amt(1000))
-	case "undelegateV2":
-		data, err = sabi.Pack(m, val, amt(10))
-	case "redelegateV2":
-		data, err = sabi.Pack(m, val, e.vals[1], amt(10))
-	case "withdraw":
-		data, err = sabi.Pack(m, val)
-	case "approveShares":
-		data, err = sabi.Pack(m, val, common.BigToAddress(big.NewInt(int64(0x5000+nd.ID))), amt(1))
-	case "transferShares":
-		data, err = sabi.Pack(m, val, e.sink, amt(10))
-	case "transferFromShares":
-		data, err = sabi.Pack(m, val, e.owner.Address(), e.sink, amt(10))
-	case "delegation":
-		data, err = sabi.Pack(m, val, ctx)
-	case "crossChain":
-		nd.To = e.cross
-		a, f := big.NewInt(int64(1000+nd.ID)), big.NewInt(int64(10+nd.ID))
-		value = new(big.Int).Add(a, f)
-		if mode == "fail" {
-			f = big.NewInt(1) // amount + fee != msg.value
-		}
-		data, err = cabi.Pack(m, common.Address{}, helpers.GenExternalAddr(ethtypes.ModuleName), a, f, fxtypes.MustStrToByte32(ethtypes.ModuleName), "")
-	case "cancelSendToExternal":
-		nd.To = e.cross
-		id := uint64(999999)
-		if ids := e.txids[ctx]; len(ids) > 0 && mode == "ok" && !cancelUsed[ctx] {
-			id = ids[0]
-			cancelUsed[ctx] = true // a second cancel of the same tx would depend on the fate of the first
-		} else {
-			mode = "fail"
-		}
-		data, err = cabi.Pack(m, ethtypes.ModuleName, new(big.Int).SetUint64(id))
-	case "increaseBridgeFee":
-		nd.To = e.cross
-		id := uint64(999999)
-		if ids := e.txids[ctx]; len(ids) > 1 && mode == "ok" {
-			id = ids[1]
-		} else {
-			mode = "fail"
-		}
-		value = big.NewInt(int64(5 + nd.ID))
-		data, err = cabi.Pack(m, ethtypes.ModuleName, new(big.Int).SetUint64(id), common.Address{}, value)
-	case "bridgeCall":
-		nd.To = e.cross
-		value = big.NewInt(int64(2000 + nd.ID))
-		dst := ethtypes.ModuleName
-		if mode == "fail" {
-			dst = "nochain"
-		}
-		data, err = cabi.Pack(m, dst, ctx, []common.Address{}, []*big.Int{}, helpers.GenHexAddress(), []byte{byte(nd.ID)}, big.NewInt(0), []byte{})
-	case "executeClaim":
-		nd.To = e.cross
-		mode = "fail" // no pending claim exists
-		data, err = cabi.Pack(m, ethtypes.ModuleName, big.NewInt(987654))
-	case "hasOracle":
-		nd.To = e.cross
-		chain := ethtypes.ModuleName
-		if mode == "fail" {
-			chain = "nochain"
-		}
-		data, err = cabi.Pack(m, chain, helpers.GenHexAddress())
-	}
-	if err != nil {
-		panic(fmt.Sprintf("pack %s: %v", m, err))
-	}
-	if m == "withdraw" && mode == "fail" {
-		// invalid validator string fails in UnpackInput
-	}
-	nd.Data = data
-	if nd.Kind.HasValue() && !static {
-		nd.Value = value
-	} else {
-		nd.Value = new(big.Int)
-		if value.Sign() > 0 {
-			// payable paths need msg.value: without it they fail (amount+fee != value / erc20 path)
-			switch m {
-			case "crossChain", "increaseBridgeFee":
-				mode = "fail"
-			}
-		}
-	}
-	if nd.Kind == evmx.KCallCode && static {
-		nd.Value = new(big.Int)
-	}
-	lastMethod, lastMode = m, mode
-}
-
-// ---------------------------------------------------------------------------------------------------------
 // running
 
 type runObs struct {
@@ -363,6 +231,7 @@ type runObs struct {
 	kept    []int
 	dump    map[string]string
 	logs    string
+	nPreLog int
 	tr      *evmx.Tracer
 	gasUsed uint64
 }
@@ -385,8 +254,9 @@ func statusOf(res *evmtypes.MsgEthereumTxResponse, err error) string {
 	return "fail"
 }
 
-var cosmosStores = []string{"bank", "staking", "distribution", "eth", "erc20", "gov", "slashing", "mint", "bsc", "tron", "transfer", "ibc", "crosschain"}
+var cosmosStores = []string{"bank", "staking", "distribution", "eth", "erc20", "gov", "slashing", "mint", "bsc", "tron", "transfer", "ibc", "crosschain", "feegrant", "authz"}
 
+// dumpCosmos: digest of every Cosmos module store + the EVM storage of the ERC-20 token contracts (balances, allowances)
 func (e *env) dumpCosmos(ctx sdk.Context) map[string]string {
 	res := map[string]string{}
 	keys := e.s.App.GetKVStoreKey()
@@ -394,6 +264,18 @@ func (e *env) dumpCosmos(ctx sdk.Context) map[string]string {
 		if k, ok := keys[n]; ok {
 			d, _ := hx.DumpStore(ctx, k)
 			res[n] = d
+		}
+	}
+	if k, ok := keys[evmtypes.StoreKey]; ok {
+		for name, tok := range map[string]common.Address{"token:wfx": e.wfx, "token:tst": e.tst} {
+			if tok == (common.Address{}) {
+				continue
+			}
+			var sb strings.Builder
+			for _, kv := range hx.RawPrefix(ctx, k, evmtypes.AddressStoragePrefix(tok)) {
+				sb.WriteString(hx.Hex(kv[0]) + "=" + hx.Hex(kv[1]) + ";")
+			}
+			res[name] = sb.String()
 		}
 	}
 	return res
@@ -443,6 +325,9 @@ func (e *env) run(pctx sdk.Context, p *program, gasLimit uint64, traced bool) *r
 		var sb strings.Builder
 		for _, l := range res.Logs {
 			sb.WriteString(l.Address + ":" + strings.Join(l.Topics, ",") + ":" + common.Bytes2Hex(l.Data) + ";")
+			if a := common.HexToAddress(l.Address); a == e.staking || a == e.cross {
+				o.nPreLog++
+			}
 		}
 		o.logs = sb.String()
 	}
@@ -640,7 +525,14 @@ func (e *env) progText(p *program, tr *evmx.Tracer) (string, uint64) {
 					if e.writer[mt.method] {
 						w = 1
 					}
-					parts = append(parts, fmt.Sprintf("P %d %s %d %s %d %s", n.ID, hdr, e.reqGas[mt.method], mt.mode, w, mt.method))
+					// gas the precompile used on top of RequiredGas when it succeeded in the ample run (0 for a flat-priced
+					// method; measured, so that a method that meters its native work is predicted with its real price)
+					extra := uint64(0)
+					if hasFrame && tr.Frames[ci].Err == "" && tr.Frames[ci].GasUsed > e.reqGas[mt.method] {
+						extra = tr.Frames[ci].GasUsed - e.reqGas[mt.method]
+						e.cnt("cost:precompile-used-more-than-RequiredGas:" + mt.method)
+					}
+					parts = append(parts, fmt.Sprintf("P %d %s %d %s %d %s %d %s", n.ID, hdr, e.reqGas[mt.method], mt.mode, w, mt.method, extra, mt.logs))
 				}
 			}
 		}
@@ -664,14 +556,96 @@ func ints(xs []int) string {
 	return strings.Join(ss, ",")
 }
 
+// gasPoints chooses the gas limits of one program: below/at/above intrinsic, ample, thresholds around every executed
+// opcode of the ample run, limits that leave a precompile call RequiredGas + d for d from -1 upward (cut-offs inside the
+// native action), and random points.
+func (e *env) gasPoints(rng *rand.Rand, p *program, amp *runObs, intrinsic uint64) []uint64 {
+	pts := map[uint64]bool{ampleGL: true, intrinsic: true, intrinsic + 1: true}
+	if intrinsic > 0 {
+		pts[intrinsic-1] = true
+	}
+	var cuts []uint64
+	fnAmp := frameNodes(p, amp.tr)
+	for _, op := range amp.tr.Ops {
+		if _, mapped := fnAmp[op.Frame]; (mapped || op.Frame == 0) && op.Gas <= ampleGL {
+			// (frames opened inside a precompile — ERC-20 calls — run on their own gas allowance: not thresholds of the tx)
+			cuts = append(cuts, ampleGL-op.Gas) // includes intrinsic; exact for depth 1, approximate (63/64) deeper
+		}
+	}
+	nCut := hx.N(12, 60)
+	for i := 0; i < nCut && len(cuts) > 0; i++ {
+		c := cuts[rng.Intn(len(cuts))]
+		switch rng.Intn(4) {
+		case 0:
+			pts[c] = true
+		case 1:
+			pts[c+1] = true
+		case 2:
+			pts[c+c/63+uint64(rng.Intn(3))] = true
+		default:
+			pts[c+uint64(rng.Intn(3000))] = true
+		}
+	}
+	// inside the native action: the precompile frame gets RequiredGas + d
+	fn := frameNodes(p, amp.tr)
+	var pre []int
+	for i, n := range fn {
+		if n.Op == "pre" && n.Gas == 0 {
+			pre = append(pre, i)
+		}
+	}
+	sort.Ints(pre)
+	nIn := hx.N(8, 40)
+	for k := 0; k < nIn && len(pre) > 0; k++ {
+		i := pre[rng.Intn(len(pre))]
+		f := amp.tr.Frames[i]
+		req := e.reqGas[p.meta[fn[i].ID].method]
+		depth := 0
+		for j := i; j > 0; j = amp.tr.Frames[j].Parent {
+			depth++
+		}
+		d := []int64{-1, 0, 1, int64(rng.Intn(200)), int64(rng.Intn(3000)), int64(rng.Intn(12000)), int64(rng.Intn(40000)), int64(rng.Intn(90000))}[rng.Intn(8)]
+		want := int64(req) + d
+		if want < 0 || uint64(want) >= f.Gas {
+			continue
+		}
+		drop := f.Gas - uint64(want) // how much less the frame must get
+		for j := 0; j < depth; j++ {
+			drop = drop + drop/63
+		}
+		if drop+uint64(depth)+2 >= ampleGL-intrinsic {
+			continue
+		}
+		g := ampleGL - drop
+		pts[g] = true
+		e.cnt("gas-point:inside-native-action")
+		if d <= 1 {
+			for x := uint64(1); x <= uint64(depth)+1; x++ {
+				pts[g-x] = true
+				pts[g+x] = true
+			}
+		}
+	}
+	total := amp.gasUsed + 50000
+	nRand := hx.N(8, 40)
+	for i := 0; i < nRand; i++ {
+		pts[intrinsic+uint64(rng.Int63n(int64(total)))] = true
+	}
+	var gl []uint64
+	for g := range pts {
+		gl = append(gl, g)
+	}
+	sort.Slice(gl, func(i, j int) bool { return gl[i] < gl[j] })
+	return gl
+}
+
 func TestC09(t *testing.T) {
 	seed := hx.Seed()
 	rng := rand.New(rand.NewSource(seed))
 	out := hx.NewOut()
-	defer out.Close("correspondence: random call trees (<=6 contracts, depth<=3; SSTORE markers, CALL/STATICCALL/DELEGATECALL/CALLCODE to generated contracts and to both precompiles, all 12 state-changing methods + 2 views, valid and failing arguments, value transfers, gas caps, swallow/bubble, REVERT/INVALID/STOP) x gas limits from below intrinsic to ample (random + per-node threshold points; thorough: dense sweep), real signed MsgEthereumTx; model predicts status/markers/kept calls from tracer-measured costs; reference run = pruned program. non-trivial = distinct (status, #kept, #dropped executed calls, methods)")
+	defer out.Close("correspondence: random call trees (<=6 contracts, depth<=3; SSTORE markers, CALL/STATICCALL/DELEGATECALL/CALLCODE to generated contracts and to both precompiles, all 12 state-changing methods + 2 views, valid and failing arguments (early and late failures), origin-token and ERC-20 paths of crossChain/bridgeCall/increaseBridgeFee, executeClaim of pending claims, resources consumed by kept calls only, value transfers, gas caps around RequiredGas, swallow/bubble, REVERT/INVALID/STOP) x gas limits from below intrinsic to ample (random + per-opcode thresholds + cut-offs inside the native action; thorough: dense sweep), real signed MsgEthereumTx; model predicts status/gas/markers/kept calls/logs from tracer-measured costs; reference run = pruned program. non-trivial = distinct (status, #kept, #dropped executed calls, methods)")
 	e := setup(t, out)
 	e.cnt = out.Count
-	const ample = 6_000_000
 	nProg := hx.N(400, 2000)
 	debug := os.Getenv("VERIF_DEBUG") != ""
 	for pi := 0; pi < nProg; pi++ {
@@ -681,51 +655,17 @@ func TestC09(t *testing.T) {
 		if err := evmx.InstallTree(pctx, e.s.App, p.addrs[0], p.root); err != nil {
 			t.Fatal(err)
 		}
-		amp := e.run(pctx, p, ample, true)
+		amp := e.run(pctx, p, ampleGL, true)
 		text, intrinsic := e.progText(p, amp.tr)
 		for i, n := range frameNodes(p, amp.tr) {
 			if n.Op == "pre" {
-				out.Count(fmt.Sprintf("ample:%s:%s:%s:%s", p.meta[n.ID].method, p.meta[n.ID].mode, n.Kind, firstLine(amp.tr.Frames[i].Err)))
+				out.Count(fmt.Sprintf("ample:%s:%s:%s:%s", p.meta[n.ID].variant, strings.SplitN(p.meta[n.ID].mode, ":", 2)[0], n.Kind, firstLine(amp.tr.Frames[i].Err)))
 			}
 		}
 		if debug {
 			fmt.Printf("prog %d: %s\n  ample: %s used=%d vmerr=%q frames=%d\n", pi, text, amp.status, amp.gasUsed, amp.vmErr, len(amp.tr.Frames))
 		}
-		// gas points
-		pts := map[uint64]bool{ample: true, intrinsic: true, intrinsic + 1: true}
-		if intrinsic > 0 {
-			pts[intrinsic-1] = true
-		}
-		// thresholds: gas consumed up to each op of the ample run (root-relative), +-1 and 64/63 scaled
-		var cuts []uint64
-		for _, op := range amp.tr.Ops {
-			used := ample - op.Gas // includes intrinsic; only exact for depth 1, approximate (63/64) deeper
-			cuts = append(cuts, used)
-		}
-		nCut := hx.N(14, 60)
-		for i := 0; i < nCut && len(cuts) > 0; i++ {
-			c := cuts[rng.Intn(len(cuts))]
-			switch rng.Intn(4) {
-			case 0:
-				pts[c] = true
-			case 1:
-				pts[c+1] = true
-			case 2:
-				pts[c+c/63+uint64(rng.Intn(3))] = true
-			default:
-				pts[c+uint64(rng.Intn(3000))] = true
-			}
-		}
-		total := amp.gasUsed + 50000
-		nRand := hx.N(10, 40)
-		for i := 0; i < nRand; i++ {
-			pts[intrinsic+uint64(rng.Int63n(int64(total)))] = true
-		}
-		var gl []uint64
-		for g := range pts {
-			gl = append(gl, g)
-		}
-		sort.Slice(gl, func(i, j int) bool { return gl[i] < gl[j] })
+		gl := e.gasPoints(rng, p, amp, intrinsic)
 		refCache := map[string]*runObs{}
 		before := e.dumpCosmos(pctx)
 		for _, g := range gl {
@@ -762,7 +702,7 @@ func TestC09(t *testing.T) {
 					t.Fatal(err)
 				}
 				rp := &program{root: pr, addrs: p.addrs, meta: p.meta, nodes: p.nodes, ctxOf: p.ctxOf}
-				ref = e.run(rctx, rp, ample, false)
+				ref = e.run(rctx, rp, ampleGL, false)
 				refCache[key] = ref
 			}
 			refs := "same"
@@ -776,41 +716,61 @@ func TestC09(t *testing.T) {
 			if real.status == "ok" && ref.status != "ok" {
 				refs = "diff:reference-run-" + ref.status
 			}
-			obs = fmt.Sprintf("%s markers=%s kept=%s ref=%s", real.status, ints(real.markers), ints(trc.kept), refs)
+			rootUsed := uint64(0)
+			if len(trc.tr.Frames) > 0 {
+				rootUsed = trc.tr.Frames[0].GasUsed
+			}
+			obs = fmt.Sprintf("%s gas=%d markers=%s kept=%s logs=%d ref=%s", real.status, rootUsed, ints(real.markers), ints(trc.kept), real.nPreLog, strings.SplitN(refs, ":", 2)[0])
 			out.Emit(fmt.Sprintf("tx %d %d %s", g, intrinsic, text), obs)
 			// ---- monitors
-			executed, dropped := 0, 0
+			dropped := 0
 			var dm []string
 			for i, n := range fn {
-				if n.Op == "pre" && trc.tr.Frames[i].Err == "" {
-					executed++
+				if n.Op != "pre" {
+					continue
+				}
+				if trc.tr.Frames[i].Err == "" {
 					if !trc.tr.Kept(i) {
 						dropped++
 						dm = append(dm, p.meta[n.ID].method)
 					}
+				} else if trc.tr.Frames[i].Gas >= e.reqGas[p.meta[n.ID].method] && e.writer[p.meta[n.ID].method] && n.Kind == evmx.KCall {
+					out.Count("failed-after-RequiredGas:" + p.meta[n.ID].variant + ":" + strings.SplitN(p.meta[n.ID].mode, ":", 2)[0])
 				}
 			}
 			sort.Strings(dm)
 			out.Count("status:" + real.status)
 			out.Nontrivial(fmt.Sprintf("%s|kept=%d|dropped=%d|%s", real.status, len(trc.kept), dropped, strings.Join(dm, ",")))
 			for _, id := range trc.kept {
-				out.Count("kept:" + p.meta[id].method)
+				out.Count("kept:" + p.meta[id].variant)
 			}
 			for _, m := range dm {
 				out.Count("undone:" + m)
 			}
 			if real.status != "ok" {
 				if ch := hx.DiffDump(before, real.dump); len(ch) > 0 {
-					out.Violate(fmt.Sprintf("failed transaction (%s) left Cosmos-side effects in %v; successful-then-undone precompile calls: %v", real.status, ch, dm))
+					out.Violate(fmt.Sprintf("failed transaction (%s) left Cosmos-side effects in %v; successful-then-undone precompile calls: %v; precompile calls that failed after paying RequiredGas: %v", real.status, ch, dm, failedInside(p, fn, trc.tr, e)))
 				}
 				if real.logs != "" {
 					out.Violate("failed transaction kept logs")
 				}
 			}
 			if refs != "same" {
-				out.Violate(fmt.Sprintf("Cosmos state after the transaction differs from the effects of exactly the kept precompile calls (%s); status=%s kept=%v undone=%v", refs, real.status, trc.kept, dm))
+				out.Violate(fmt.Sprintf("Cosmos state after the transaction differs from the effects of exactly the kept precompile calls (%s); status=%s kept=%v undone=%v; precompile calls that failed after paying RequiredGas: %v", refs, real.status, trc.kept, dm, failedInside(p, fn, trc.tr, e)))
 			}
 		}
 	}
-	_ = bytes.Equal
+}
+
+// failedInside lists the methods of precompile calls that got at least RequiredGas and still failed (the native action
+// itself failed or was cut short)
+func failedInside(p *program, fn map[int]*evmx.Node, tr *evmx.Tracer, e *env) []string {
+	var res []string
+	for i, n := range fn {
+		if n.Op == "pre" && tr.Frames[i].Err != "" && tr.Frames[i].Gas >= e.reqGas[p.meta[n.ID].method] {
+			res = append(res, p.meta[n.ID].method+"("+firstLine(tr.Frames[i].Err)+")")
+		}
+	}
+	sort.Strings(res)
+	return res
 }
